@@ -9,6 +9,7 @@ import RosedVerif.Spec.AlignLemmas
 import RosedVerif.Spec.WrapLemmas
 import RosedVerif.Model.JustifyLemmas
 import RosedVerif.Model.BridgeWrap
+import RosedVerif.Model.BridgeOps
 namespace RosedVerif.Props
 open RosedVerif RosedVerif.Spec
 variable {α : Type} (tk : Toks α)
@@ -65,5 +66,15 @@ theorem C07_collapse_code_points {V : List (List Int)} (hV : VocabStable V = tru
   · rw [hc, h3]
   · rw [hc, h3]
     exact collapse_nonws ⟨cxB.isSpace, cxB.sp, cxB.hy⟩ BridgeWrap.cxB_sp_space toks
+
+/-- the public operation CollapseSpaceOpts on code points, any options, any editor (sub-editors
+included): the code-point run of the model is the flattening of the cluster run (`GoodSep`: the line
+separator cannot be found across cluster boundaries — see `C06_wrapOpts_code_points`). -/
+theorem C07_collapseSpaceOpts_code_points {V : List (List Int)} (hV : VocabStable V = true)
+    (hsp : [0x20] ∈ V) (hspTail : ∀ t ∈ V, (0x20 : Int) ∉ t.tail)
+    (ed : Editor (List Int)) (ht : ∀ t ∈ ed.text, t ∈ V) (o' : Options (List Int))
+    (hS : BridgeOps.GoodSep V (o'.withDefaults cxB).lineSep) :
+    Editor.collapseSpaceOpts cxA ed.flat o'.flat = (Editor.collapseSpaceOpts cxB ed o').map Editor.flat :=
+  BridgeOps.collapseSpaceOpts_bridge_good hV hsp hspTail ed ht o' hS
 
 end RosedVerif.Props
